@@ -4,6 +4,7 @@ mod cfg;
 mod conc;
 mod concrun;
 mod exec;
+mod faultrun;
 mod handles;
 mod joinrun;
 mod lts;
@@ -66,6 +67,16 @@ fn main() {
             r["lts_states"] = json!(lts.states.len());
             r["lts_edges"] = json!(lts.nedges);
             println!("{}", r);
+            0
+        }
+        "faults" => {
+            let lts = Arc::new(lts::Lts::load(&PathBuf::from(get("lts", ""))));
+            let o = lts::WalkOpts {
+                cfg: get("cfg", "fault(mem)"), names: get("names", "ascii"), b: get("b", "1").parse().unwrap(), mode: "faults".into(), frac: 1.0,
+                seed: get("seed", "1").parse().unwrap(), out: PathBuf::from(get("out", "work/faults")), threads: 1, walks: 0, len: 0, light: false,
+                split: a.contains_key("split"), lower_only: false, max_events: 100000000,
+            };
+            println!("{}", faultrun::run(lts, &o, get("pairs", "50").parse().unwrap()));
             0
         }
         "handles" => {
